@@ -448,6 +448,16 @@ func (m *Manager) lock() {
 		}
 	}
 
+	// Zero and drop all cached derived private keys.
+	for _, manager := range m.scopedManagers {
+		cache := manager.privKeyCache
+		cache.Range(func(path DerivationPath, key *cachedKey) bool {
+			key.key.Zero()
+			cache.Delete(path)
+			return true
+		})
+	}
+
 	// Remove clear text private master and crypto keys from memory.
 	m.cryptoKeyScript.Zero()
 	m.cryptoKeyPriv.Zero()
